@@ -54,19 +54,32 @@ def z_classes(P):
 
 def main(tier):
     rep = vlib.Report("C02", tier)
-    sets = aicheck.sets_for(tier)
-    obligations = discharged = 0
-    samples = []
-    n_classes = 0
+    cnt = [0, 0]
 
     def ob(ok, key, detail):
-        nonlocal obligations, discharged
-        obligations += 1
+        cnt[0] += 1
         if ok:
-            discharged += 1
+            cnt[1] += 1
         else:
             rep.violation(key, detail)
 
+    samples, n_classes = analyse(rep, ob, aicheck.sets_for(tier))
+    cov = {
+        "obligations": cnt[0], "discharged": cnt[1],
+        "checker_cmd": "python3 bin/check C02 (driver ai mode on abstract signature classes through verify / hash_verify / _internal_verify)",
+        "trusted_base": ["abstract interpreter soundness", "lib/hintclasses.py verdicts follow FIPS 204 Alg. 21", "hash model"],
+        "samples": samples, "input_classes": n_classes, "exhaustive": False,
+        "explanation": "rejection side: each class (an arbitrary signature with a few pinned bytes) is decided for all its members; acceptance of valid signatures is not decidable without hash values",
+    }
+    return rep.finish("other", cov, ["acceptance side not decided", "class family covers the taxonomy, not all byte strings"])
+
+
+def analyse(rep, ob, sets, rules=("R1", "R2", "R3", "R4", "R5"), prefix=""):
+    if prefix:
+        ob0 = ob
+        ob = lambda ok, key, detail: ob0(ok, prefix + key, detail)
+    samples = []
+    n_classes = 0
     jobs = {}
     meta = {}
     for s in sets:
@@ -78,28 +91,28 @@ def main(tier):
         J = []
         M = {}
         fam = [f for f in hintclasses.families(k, om) if f[1] == "err"]
-        for cid, kind, ov in fam:
+        for cid, kind, ov in (fam if "R1" in rules else []):
             jid = "%s:hint:%s" % (s, cid)
             J.append((jid, n["verify"], {"pk": "from_bytes", "len.ctx": "0..255", "bytes.arg2": hintclasses.spec_string(ov, hint_off)}))
             M[jid] = ("R1", cid, "verify")
-        for root in ("hash_verify", "internal_verify"):
+        for root in (("hash_verify", "internal_verify") if "R1" in rules else ()):
             for cid, kind, ov in [f for f in fam if f[0] in ("count-above-omega@poly0", "nonzero-padding@%d:count%d" % (om - 1, om - 1), "position-order@poly0:a100", "count-below-index@poly1:spread")]:
                 jid = "%s:hint:%s:%s" % (s, root, cid)
                 J.append((jid, n[root], {"pk": "from_bytes", "len.ctx": "0..255", "bytes.arg2": hintclasses.spec_string(ov, hint_off)}))
                 M[jid] = ("R1", cid, root)
         empty_hint = hintclasses.spec_string(hintclasses.canonical(k, om, [0] * k), hint_off)
-        for cname, ov in z_classes(P):
+        for cname, ov in (z_classes(P) if "R2" in rules else []):
             jid = "%s:z:%s" % (s, cname)
             spec = ";".join("%d:%d..%d" % (p, lo, hi) for p, (lo, hi) in sorted(ov.items())) + ";" + empty_hint
             J.append((jid, n["verify"], {"pk": "from_bytes", "len.ctx": "0..255", "bytes.arg2": spec}))
             M[jid] = ("R2", cname, "verify")
         # unconstrained runs: structure + arithmetic, for every public-key provenance
-        for prod in roots.PK_PRODUCERS:
+        for prod in (roots.PK_PRODUCERS if ("R3" in rules or "R4" in rules) else []):
             for root in ("verify", "hash_verify", "internal_verify"):
                 jid = "%s:any:%s/%s" % (s, root, prod)
                 J.append((jid, n[root], {"pk": prod, "len.ctx": "0..255"}))
                 M[jid] = ("R34", prod, root)
-        for root in ("verify", "hash_verify", "internal_verify"):
+        for root in (("verify", "hash_verify", "internal_verify") if "R5" in rules else ()):
             for cn, rng in (("eq256", "256..256"), ("ge257", "257..max")):
                 jid = "%s:ctx:%s:%s" % (s, root, cn)
                 J.append((jid, n[root], {"pk": "from_bytes", "len.ctx": rng}))
@@ -132,7 +145,7 @@ def main(tier):
                     "meaning": "some member of the class is not definitely rejected by %s" % root})
                 if len(samples) < 6 and rule == "R2":
                     samples.append({"set": s, "class": cname, "entry": root, "abstract_result": j["partitions"]})
-            else:
+            elif "R3" in rules:
                 # R3 structure
                 eqs = [p["data"] for p in j["probes"] if p["what"] == "array_eq" and p["data"]["path"].endswith("verify_internal")]
                 ok = len(eqs) == 1 and eqs[0]["len_a"] == str(lam4) and eqs[0]["len_b"] == str(lam4) and {eqs[0]["src_a"].split(".")[-1], eqs[0]["src_b"].split(".")[-1]} == {"c_tilde", "c_tilde_p"}
@@ -153,19 +166,12 @@ def main(tier):
                 uh = sum(v for c, v in j["calls"].items() if c == "high_low::use_hint")
                 ob(uh == 256 * P["k"], "R3:use-hint-all:%s" % root, {"rule": "R3 UseHint is applied to all 256*k coefficients", "entry": j["root"], "set": s, "use_hint_calls": uh})
         # R4: obligations on verify paths
-        vsites = [x for x in r["sites"] if x["violated"]]
+        vsites = [x for x in r["sites"] if x["violated"]] if "R4" in rules else []
         viol, assumed, _ = aicheck.classify(vsites, assume)
         for x in viol:
             ob(False, "R4:" + aicheck.stable_key(x), aicheck.site_report(x))
         ob(True, "R4:%s" % s, {})
-    cov = {
-        "obligations": obligations, "discharged": discharged,
-        "checker_cmd": "python3 bin/check C02 (driver ai mode on abstract signature classes through verify / hash_verify / _internal_verify)",
-        "trusted_base": ["abstract interpreter soundness", "lib/hintclasses.py verdicts follow FIPS 204 Alg. 21", "hash model"],
-        "samples": samples, "input_classes": n_classes, "exhaustive": False,
-        "explanation": "rejection side: each class (an arbitrary signature with a few pinned bytes) is decided for all its members; acceptance of valid signatures is not decidable without hash values",
-    }
-    return rep.finish("other", cov, ["acceptance side not decided", "class family covers the taxonomy, not all byte strings"])
+    return samples, n_classes
 
 
 if __name__ == "__main__":
